@@ -76,7 +76,7 @@ def _extent_guard(fi, memo):
         if isinstance(n, ast.Compare):
             for side in [n.left] + list(n.comparators):
                 for x in ast.walk(side):
-                    if isinstance(x, ast.Call) and isinstance(x.func, ast.Name) and x.func.id == 'len' and x.args and any(isinstance(y, ast.Name) and (y.id in fetched or y.id == memo) for y in ast.walk(x.args[0])):
+                    if isinstance(x, ast.Call) and isinstance(x.func, ast.Name) and x.func.id == 'len' and x.args and any(isinstance(y, ast.Name) and y.id in fetched for y in ast.walk(x.args[0])):
                         return True
                     if isinstance(x, ast.Attribute) and x.attr in ('shape', 'size') and any(isinstance(y, ast.Name) and (y.id in fetched) for y in ast.walk(x.value)):
                         return True
